@@ -93,7 +93,19 @@ def run_check(tier, seed):
             a.append("--dirty")
         if dirty is False:
             a.append("--no-dirty")
-        cases.append(flw("text", None, a, now, rules=rules))
+        stdin = None
+        if rng.random() < 0.2:
+            # the base tag comes from --tag-version while the object on stdin still carries the parts of an older pre-release
+            # (what a repository looks like whose previous tag was a flow version): the override replaces ALL version parts
+            ov = zgen.rand_vars(rng)
+            ov.update({"major": 0, "minor": 9, "patch": 0, "pre": (rng.choice(["a", "b", "rc"]), rng.choice([0, 2, 14467])), "post": rng.choice([None, 3]), "dev": rng.choice([None, 1700000000]),
+                       "epoch": None, "distance": None, "dirty": None})
+            stdin = zgen.enc_zerv({"core": [("v", "Major"), ("v", "Minor"), ("v", "Patch")], "extra": [("v", "Epoch"), ("v", "PreRelease"), ("v", "Post"), ("v", "Dev")], "build": []}, ov)
+            a[0] = "--source=stdin"
+            if preset is None:
+                a.append("--schema=standard")
+                preset = "standard"
+        cases.append(flw("text", stdin, a, now, rules=rules))
         meta.append((X, Y, Z, out, distance, dirty, preset))
     res = correspond(run, "final_tag_all_states", cases, **kw)
     for (c, r, m, v), (X, Y, Z, out, distance, dirty, preset) in zip(res, meta):
